@@ -891,6 +891,15 @@ def register(chk):
         chk.add("%s:FpBase<%d>::montgomery_reduce" % (cfg, N), ob_montgomery, cfg, N)
         chk.add("%s:Fp<%d>:forwarding" % (cfg, N), ob_fp_forward, cfg, N)
         chk.add("%s:constants:%d" % (cfg, N), ob_constants, cfg, N)
+    # the word layer at the other widths the library instantiates (recoding, GLV rounding, 512-bit scalars): same template, other trip counts
+    # (192 bits is one and a half double words: its union carries 8 bytes of padding, see more:BigInt<192> in c02_more.py)
+    for N in (128, 512) + ((768,) if chk.tier == "thorough" else ()):      # 768 bits: a minute per QF_BV query
+        for cfg in ("A",) + (("P64",) if chk.tier == "thorough" else ()):
+            for op in ("add", "subtract"):
+                for alias in (0, 1):
+                    chk.add("%s:BigInt<%d>::%s:alias=%d" % (cfg, N, op, alias), ob_bigint, cfg, N, op, alias)
+            for op in ("compare", "equal", "is_zero", "is_one", "is_even", "is_odd", "bit", "write_big_endian", "read_big_endian"):
+                chk.add("%s:BigInt<%d>::%s" % (cfg, N, op), ob_bigint, cfg, N, op, 0)
     # the shipped Fq: FpBase<384> in configuration A (whichever members the arch header specialises call the assembly, the others are the template)
     for op, nin in FPBASE_OPS.items():
         for alias in (0, 1):
